@@ -500,6 +500,10 @@ def note_new_jobs(v, h, op, res, k, prev):
         h.parents[(bb, jid)] = ps
         if not (sj <= jid < sj + nj):
             h.report('C08', 'C08:accepted-job-id-outside-reserved-range', k, {'job': jid, 'range': [sj, sj + nj - 1]})
+        if any(not isinstance(q, int) or isinstance(q, bool) and False for q in ps):
+            # a fractional id is rounded by the INT column: whatever job it then names was never checked
+            h.report('C08', 'C08:accepted-non-integer-dependency', k, {'job': jid, 'parents': [str(q) for q in ps]})
+            continue
         if len(set(ps)) != len(ps):
             # a job_parents row per distinct parent but n_pending_parents counts the list: the job could never become ready
             h.report('C08', 'C08:accepted-duplicated-dependency', k, {'job': jid, 'parents': ps})
